@@ -526,6 +526,7 @@ class TextState:
         self.user_punch_on = {}  # n -> -user_punch
         self.up = {}             # n -> dict(nvals, headings, special)
         self.pr_punch = True
+        self.pr_dump = True
 
     def read_call(self, text):
         """returns per-simulation facts of this call and per-number facts needed to judge formats"""
@@ -591,6 +592,8 @@ class TextState:
                         o = w[0].lstrip("-").lower()
                         if o.startswith("selected_out") or o == "selected_output":
                             self.pr_punch = (w[1].lower().startswith("t") if len(w) > 1 else True)
+                        elif o == "dump":
+                            self.pr_dump = (w[1].lower().startswith("t") if len(w) > 1 else True)
                 elif kw in NEW_MODEL_KEYS:
                     tidy_kw = True
             first = (k == 0)
@@ -598,12 +601,12 @@ class TextState:
             dump = None
             for kw, n, body in sim:
                 if kw == "DUMP":
-                    dump = False
+                    dump = "-"              # block without -append: the flag of an earlier block stays in force
                     for ln in body:
                         w = ln.split()
                         if w[0].lstrip("-").lower().startswith("app"):
-                            dump = (w[1].lower().startswith("t") if len(w) > 1 else True)
-            out.append(dict(first=first, pr_punch=self.pr_punch, tidy=tidy, blocks=blocks, dump=dump))
+                            dump = "1" if (w[1].lower().startswith("t") if len(w) > 1 else True) else "0"
+            out.append(dict(first=first, pr_punch=self.pr_punch, pr_dump=self.pr_dump, tidy=tidy, blocks=blocks, dump=dump))
         ambiguous = {n for n, v in hp_seen.items() if len(v) > 1} | {n for n, c in up_seen.items() if c > 1} | late_def
         return dict(sims=out, late_redef=late_redef, ambiguous=ambiguous, inverse=any(b[0] == "INVERSE_MODELING" for s in sims for b in s))
 
@@ -887,7 +890,7 @@ def run_history(ctx, exe, inputs, cfgs, cells_cap=None, names=None, db=DB):
     for cfg, info in zip(cfgs, infos):
         dl.append(f"dm cfg {int(cfg['dump'][1])} {int(cfg['dump'][0])}")
         for s in info["sims"]:
-            dl.append(f"dm sim {int(s['dump'] is not None)} {int(bool(s['dump']))} 1 {TOK[tk % len(TOK)]}")
+            dl.append(f"dm sim {int(s['dump'] is not None)} {s['dump'] or '0'} {int(s['pr_dump'])} {TOK[tk % len(TOK)]}")
             tk += 1
         dl.append("dm endcall")
     dmout = []
@@ -935,12 +938,6 @@ def run_history(ctx, exe, inputs, cfgs, cells_cap=None, names=None, db=DB):
              "rows": sum(int(dict(x.split("=") for x in v)["rows"]) for v in views.get("sel", {}).values()),
              "redefined": sorted(info["late_redef"]), "call": k, "rel": [],
              "sk_impl": skeleton_of_events(events), "kept_off": kept_off}
-        # PRINT -selected_output false in effect for the whole call: the engine's own pr.punch after the call is FALSE and
-        # the text of this call never switches it on
-        eng_pr = dict(x.split("=") for x in views.get("dumpstate", [])).get("prpunch", "1")
-        r["print_off_whole_call"] = (guarded and eng_pr == "0" and not _re.search(r"-selected_out\w*\s+t", inp, _re.I))
-        # variant: the first simulation of the call ran with PRINT -selected_output false (input texts), a later one switched it on
-        r["print_off_first_sim"] = guarded and bool(info["sims"]) and not info["sims"][0]["pr_punch"]
         # relation: defined numbers read from the texts = numbers the object reports (error-free calls)
         judged = (ret == 0 and not info["inverse"])
         if judged and all(x["ret"] == 0 for x in res):
@@ -973,9 +970,11 @@ def run_history(ctx, exe, inputs, cfgs, cells_cap=None, names=None, db=DB):
         # ---- dump relations (while every call so far completed without error)
         dump_ok = dump_ok and ret == 0 and tk <= len(TOK)
         ds = dict(x.split("=") for x in views.get("dumpstate", []))
-        if dump_ok and ds.get("prdump", "1") == "1":
+        if dump_ok:
             dm = dmout[k]
             r["dump_judged"] = True
+            if info["sims"] and ds.get("prdump") is not None and int(ds["prdump"] != "0") != int(info["sims"][-1]["pr_dump"]):
+                r["rel"].append(("dump-state", f"engine pr.dump {ds['prdump']}, input texts say {int(info['sims'][-1]['pr_dump'])}"))
             if [ds.get("on"), ds.get("any"), ds.get("append")] != dm["state"]:
                 r["rel"].append(("dump-state", f"dump_info on/any/append {[ds.get('on'), ds.get('any'), ds.get('append')]} vs model {dm['state']}"))
             fbytes = b"" if views["dumpfile"][2] == "!" else unhx(views["dumpfile"][2])
@@ -1058,15 +1057,6 @@ def handle_history_result(ctx, inputs, cfgs, k, r, hoisted):
         if key in ("sel-string-rows", "sel-file-rows", "sel-file-ne-string") and n_user in r["redefined"]:
             # narrow rule: a SELECTED_OUTPUT n block that the INPUT TEXT of this call re-reads in a later simulation
             ctx.finding("selected-output-redefined-within-call", text, dict(rep, oracle=r["oracle"][:5]))
-        elif ((key in ("sel-file-ne-string", "sel-file-rows") and r.get("print_off_whole_call")
-               and ("o%d" % n_user) not in r["sk_impl"])
-              or (key in ("sel-file-ne-string", "sel-file-rows", "sel-string-rows") and r.get("print_off_first_sim")
-                  and n_user not in r["redefined"] and heading_before_open(r["sk_impl"], n_user))):
-            # narrow rule: PRINT -selected_output false in effect during every simulation of the call (read from the input
-            # texts), no punch_open for this number recorded in the call: the file keeps what an earlier call left there
-            if os.environ.get("B05_TEST_PENDING") == "1":
-                continue
-            ctx.finding("punch-file-not-opened-under-print-off", text, dict(rep, oracle=r["oracle"][:5], schedule=r.get("sk_impl")))
         elif key.startswith("sel-") and mixed:
             ctx.finding("get_sel_out_string_on-ignores-n", text, dict(rep, oracle=r["oracle"][:5]))
         else:
@@ -1098,6 +1088,20 @@ def run_histories(ctx, exe, n, with_cells=True):
                 break
             continue
         inputs, kinds = gi.history(ctx.rng)
+        forced = None
+        if i == 0:
+            # forced: a block re-read in a later simulation of the second call, all its sinks on (known finding
+            # selected-output-redefined-within-call must be reproduced by every run)
+            inputs = [gi.solution(ctx.rng, 1) + "SELECTED_OUTPUT 2\n -reset false\n -pH true\nEND\n",
+                      gi.solution(ctx.rng, 2) + "END\nSELECTED_OUTPUT 2\n -reset false\n -pe true\nUSE solution 1\nREACTION 1\n NaCl 1\n 0.1\nEND\n"]
+            kinds = ["define", "late-block"]
+            forced = "on"
+        elif i == 1:
+            # forced: two blocks, string switch on for one of them only (known finding get_sel_out_string_on-ignores-n)
+            inputs = [gi.solution(ctx.rng, 1) + "SELECTED_OUTPUT 1\n -reset false\n -pH true\nSELECTED_OUTPUT 2\n -reset false\n -pe true\nEND\n",
+                      gi.solution(ctx.rng, 2) + "END\n"]
+            kinds = ["define", "plain"]
+            forced = "mixed"
         if i % 7 == 3:
             # forced: definitions of several blocks in call 1, no block in call 2 (the re-open path of do_run)
             inputs[1:2] = [gi.solution(ctx.rng, 50) + "END\n"]
@@ -1106,6 +1110,13 @@ def run_histories(ctx, exe, n, with_cells=True):
         cfgs, prev = [], None
         for _ in inputs:
             prev = next_cfg(ctx.rng, prev, nums)
+            if forced == "on":
+                prev["strsw"] = {1: True, 2: True}
+                prev["filesw"] = {1: True, 2: True}
+                prev["cur"] = 2
+            elif forced == "mixed":
+                prev["strsw"] = {1: True, 2: False}
+                prev["cur"] = 1
             cfgs.append(prev)
         names = {}
         if ctx.rng.random() < 0.3:
